@@ -124,6 +124,19 @@ def run_nodes(ctx, res, extra_cases):
     for i in range(ctx.n(490, 30000)):
         name = ("SRT", "MicroDVD", "WebVTT", "SRT", "MicroDVD", "WebVTT", "SCC")[i % 7]
         cases.append((name, adv_set(rng, name)))
+    # fixed corpus (audit w7 witnesses): SCC beyond 32 rows (writer and model both raise), non-ASCII text, an empty first
+    # language, the empty set; the MicroDVD frame bound of mdvd_dom
+    def one(text, s=2 * 10 ** 6, e=4 * 10 ** 6):
+        return Caption(s, e, [CaptionNode.create_text(text)])
+    many = []
+    for k in range(41):
+        many += [CaptionNode.create_text("r%d" % k), CaptionNode.create_break()]
+    cases += [("SCC", CaptionSet({"en-US": CaptionList([Caption(2 * 10 ** 6, 4 * 10 ** 6, many[:-1])])})),
+              ("SCC", CaptionSet({"en-US": CaptionList([one("\u00e9\u4e2d \u266a </tt>")])})),
+              ("SCC", CaptionSet({"en-US": CaptionList(), "fr": CaptionList([one("x")])})),
+              ("SCC", CaptionSet({"en-US": CaptionList()})),
+              ("MicroDVD", CaptionSet({"en-US": CaptionList([one("x", 2 ** 50 - 40000, 2 ** 50 - 1)])})),
+              ("MicroDVD", CaptionSet({"en-US": CaptionList([one("x", 2 ** 49 + 39999, 2 ** 49 + 40000)])}))]
     reqs, items = [], []
     for name, cs in cases:
         w, why = encode(cs, name)
@@ -143,7 +156,12 @@ def run_nodes(ctx, res, extra_cases):
             res["disagreements"].append({"input": describe(cs), "stream": "G", "what": "request 2003 rejected the encoding"})
             continue
         if r == [-2] or doc is None:         # SCC: the writer (model) raises beyond 32 rows
-            bump(dist, "G_scc_writer_and_model_both_raise" if (r == [-2] and doc is None) else "G_scc_raise_differs(info)")
+            if r == [-2] and doc is None:
+                bump(dist, "G_scc_writer_and_model_both_raise")
+            else:       # the premise of C20_own_nodes_scc (the writer returns a document) differs between model and code
+                res["disagreements"].append({"input": describe(cs), "stream": "G", "fmt": "SCC",
+                                             "what": "SCC writer %s but its model %s" % (("raised" if doc is None else "returned a document"),
+                                                                                        ("raised" if r == [-2] else "returned a document"))})
             continue
         if name == "SCC" and r[0] != doc and TIMECODE.sub("T", r[0]) == TIMECODE.sub("T", doc):
             # the model's pre-roll uses the exact 1001000/30 us per code word, the code its binary64 value: a timecode
@@ -180,7 +198,7 @@ def run_nodes(ctx, res, extra_cases):
                 "kind": "own-output-not-recognised:theorem-instance", "fmt": name, "shape": "theorem-instance",
                 "det": (det.v.__name__ if isinstance(det, Ok) and det.v is not None else repr(det)),
                 "what": "%s writer output of a caption set in the domain of C20_own_nodes_* is not detected as %s" % (name, name),
-                "input": describe(cs), "document": doc[:4000], "replay": "own-detect", "stream": "G"})
+                "input": describe(cs), "document": doc, "replay": "own-detect", "stream": "G"})
 
 
 def describe(cs):
@@ -230,7 +248,8 @@ def real_read(name, doc):
         return r
     cs = r.v
     langs = cs.get_languages()
-    return Ok([(c.start, c.end) for c in cs.get_captions(langs[0])] if langs else [])
+    return Ok([(c.start, c.end, [n.content for n in c.nodes if n.type_ == CaptionNode.TEXT])
+               for c in cs.get_captions(langs[0])] if langs else [])
 
 
 DFXP_ATOMS = ["hello", "a & b", "<i>x</i>", "1 < 2 > 0", "x]]>y", "{1}{2}", "-->", "WEBVTT", "<sami", "</tt>", "</TT>",
@@ -280,7 +299,7 @@ def run_dfxp_nodes(ctx, res):
         if not (isinstance(det, Ok) and det.v is DFXPReader):
             res["violations"].append({"kind": "own-output-not-recognised:theorem-instance", "fmt": "DFXP", "shape": "theorem-instance",
                                       "det": repr(det), "what": "DFXP writer output is not detected as DFXP",
-                                      "input": repr((lang, wire))[:2000], "document": doc[:4000], "replay": "own-detect", "stream": "G"})
+                                      "input": repr((lang, wire))[:2000], "document": doc, "replay": "own-detect", "stream": "G"})
         else:
             bump(dist, "G_in_theorem_domain_DFXP")
 
@@ -310,8 +329,8 @@ def run_read(ctx, res, extra_cases):
             res["disagreements"].append({"input": describe(cs), "stream": "H", "what": "request 2004 rejected the encoding"})
             continue
         dom = r[0] == 1
-        expected = [(c[0], c[1]) for c in r[1]]
-        model = r_result(r[2], lambda l: [(c[0], c[1]) for c in l])
+        expected = [(c[0], c[1], list(c[2])) for c in r[1]]
+        model = r_result(r[2], lambda l: [(c[0], c[1], list(c[2])) for c in l])
         rd = real_read(name, doc)
         if not dom:
             bump(dist, "H_outside_read_back_domain_" + name)
@@ -329,5 +348,5 @@ def run_read(ctx, res, extra_cases):
                 "kind": "own-output-not-read-back:read-domain", "fmt": name, "shape": "read-domain",
                 "what": "%s: the reader does not return one caption per written cue with the written instants "
                         "(expected %d captions, got %s)" % (name, len(expected), (len(rd.v) if isinstance(rd, Ok) else repr(rd))),
-                "input": describe(cs), "document": doc[:4000], "expected": [list(e) for e in expected],
+                "input": describe(cs), "document": doc, "expected": [[e[0], e[1], e[2]] for e in expected],
                 "replay": "own-read", "stream": "H"})
